@@ -57,12 +57,37 @@ Fixpoint benefits (l : list sx) : option (list Qc) :=
   | _ => None
   end.
 
+(* arguments of one call: (tol? min? max?) with x? = () (not given) | (x) *)
+Definition get_optQc (s : sx) : option (option Qc) :=
+  match s with Lv [] => Some None | Lv [q] => match get_Qc q with Some v => Some (Some v) | None => None end | _ => None end.
+Definition get_optZ (s : sx) : option (option Z) :=
+  match s with Lv [] => Some None | Lv [Zv z] => Some (Some z) | _ => None end.
+Definition get_args (s : sx) : option call_args :=
+  match s with
+  | Lv [t; m; x] =>
+      match get_optQc t, get_optZ m, get_optZ x with
+      | Some t', Some m', Some x' => Some (mkArgs t' m' x')
+      | _, _, _ => None
+      end
+  | _ => None
+  end.
+Definition get_api_call (s : sx) : option (call_args * list obs) :=
+  match s with
+  | Lv [a; os] => match get_args a, get_obs_list os with Some a', Some o => Some (a', o) | _, _ => None end
+  | _ => None
+  end.
+Definition of_limits (l : limits) : sx :=
+  Lv [of_Qc (l_tol l); Zv (l_min l); match l_max l with Some m => Lv [Zv m] | None => Lv [] end].
+Definition of_leg_result (r : option (nat * dstate)) : sx :=
+  match r with Some (p, d) => Lv [Zv (Z.of_nat p); of_dstate d true] | None => Lv [Zv (-1)] end.
+
 (* sub 0: ((tol min max obs) ...)            -> state after every call
    sub 1: (tol min max obs)                  -> DimAdaptiveCombi loop
    sub 2: (norm ref|() integral)             -> global error estimate     (ref = (r1 r2 ...) wrapped: ((r..)) or ())
    sub 3: (norm ref integral)                -> StandardCombi difference
    sub 4: ((err evaluations) ...) (errs)     -> (benefits max_benefit total_error)
-   sub 5: (batch ...) batch = (point ...)    -> distinct point counts *)
+   sub 5: (batch ...) batch = (point ...)    -> distinct point counts
+   sub 6 / 7: histories of calls with API arguments, see below *)
 Definition entry_C13 (sub : Z) (a : sx) : sx :=
   match sub, a with
   | 0, Lv calls =>
@@ -99,6 +124,22 @@ Definition entry_C13 (sub : Z) (a : sx) : sx :=
       match get_points batches with
       | Some bs => of_LZ (point_counts [] bs)
       | None => sx_err 5
+      end
+  | 6, Lv calls =>
+      (* history on one object, every call with its arguments (defaults implicit) and ITS OWN observed stream:
+         ((args obs) ...) -> ((limits state) ...) *)
+      match opt_all (map get_api_call calls) with
+      | Some cs => Lv (map (fun x => of_dstate (fst x) (snd x)) (api_run true cs d_init))
+      | None => sx_err 6
+      end
+  | 7, Lv [Lv args; os] =>
+      (* history on one object predicted from ONE underlying stream (the probe): (args ...) stream
+         -> ((resolved limits ...) ((position state) | (-1)) per prefix of the history) *)
+      match opt_all (map get_args args), get_obs_list os with
+      | Some h, Some stream =>
+          let lims := resolve_history true h in
+          Lv [Lv (map of_limits lims); Lv (map of_leg_result (legs_prefixes (length lims) lims stream))]
+      | _, _ => sx_err 7
       end
   | _, _ => sx_err 0
   end.
